@@ -244,9 +244,15 @@ def run_greenback(req):
     import trio
     import trio.testing
     depth = req["depth"]
+    spawn = req.get("spawn", 0)   # every sync level runs its bridge `spawn` greenlets further down (greenlet_spawn idiom)
     first_async = True
     levels = []     # frames of the generated call chain, in call order
     state = {}
+
+    def below(k, fn):
+        if k == 0:
+            return fn()
+        return greenlet.greenlet(below).switch(k - 1, fn)
 
     def make_sync(i):
         def sync_fn():
@@ -254,9 +260,10 @@ def run_greenback(req):
             if i == depth:
                 state["inside"] = extract(state["task"])
                 state["inside_levels"] = list(levels)
-                greenback.await_(trio.sleep_forever())
+                if not spawn:
+                    greenback.await_(trio.sleep_forever())
                 return
-            greenback.await_(make_async(i + 1)())
+            below(spawn, lambda: greenback.await_(make_async(i + 1)()))
         return sync_fn
 
     def make_async(i):
@@ -265,7 +272,8 @@ def run_greenback(req):
             if i == depth:
                 state["inside"] = extract(state["task"])
                 state["inside_levels"] = list(levels)
-                await trio.sleep_forever()
+                if not spawn:
+                    await trio.sleep_forever()
                 return
             make_sync(i + 1)()
         return async_fn
@@ -281,17 +289,22 @@ def run_greenback(req):
                 await fn()
             n.start_soon(runner)
             await trio.testing.wait_all_tasks_blocked(0.01)
-            with warnings.catch_warnings(record=True) as w:
-                warnings.simplefilter("always")
-                st = extract(state["task"])
-            out["outside"] = st
-            out["warnings"] = [str(x.message)[:150] for x in w]
-            out["levels"] = list(levels)
+            out["warnings"] = []
+            if not spawn:
+                with warnings.catch_warnings(record=True) as w:
+                    warnings.simplefilter("always")
+                    st = extract(state["task"])
+                out["outside"] = st
+                out["warnings"] = [str(x.message)[:150] for x in w]
+                out["levels"] = list(levels)
             n.cancel_scope.cancel()
 
     trio.run(main)
     obs = []
-    for tag, st, lv in (("outside", out["outside"], out["levels"]), ("inside", state["inside"], state["inside_levels"])):
+    views = [("inside", state["inside"], state["inside_levels"])]
+    if not spawn:
+        views.insert(0, ("outside", out["outside"], out["levels"]))
+    for tag, st, lv in views:
         if st.error is not None:
             obs.append({"kind": "error", "tag": tag, "exc": repr(st.error)})
         mine = [f.pyframe for f in st.frames if f.filename == HERE and f.funcname in ("sync_fn", "async_fn")]
@@ -304,7 +317,7 @@ def run_greenback(req):
         obs.extend(_bridging_hidden(st, tag))
     if out["warnings"]:
         obs.append({"kind": "warnings", "msgs": out["warnings"]})
-    return {"obs": obs[:6], "stats": {"observations": 2, "glets": 0, "from_descendant": 0, "depth": depth}}
+    return {"obs": obs[:6], "stats": {"observations": len(views), "glets": 0, "from_descendant": 0, "depth": depth}}
 
 
 def _bridging_hidden(st, tag):
@@ -315,6 +328,8 @@ def _bridging_hidden(st, tag):
     if idx:
         for i in range(idx[0], idx[-1]):
             f = st.frames[i]
+            if f.filename == HERE and f.funcname in ("below", "<lambda>"):
+                continue      # the harness's own greenlet-spawning helper: part of the task's synchronous code
             if i not in idx and not f.hide:
                 out.append({"kind": "bridging_internal_not_hidden", "tag": tag, "frame": f.funcname,
                             "module": f.modname, "all": [[x.funcname, x.hide] for x in st.frames]})
